@@ -18,7 +18,7 @@ ENGINES = [
      "kind_free_text": "generated IDLs through every generator front-end, cargo check of the output, compiled client/server round-trip driver"},
     {"name": "vl-proc", "path": "harness/vl-proc", "serves_properties": ["C18", "C19", "C20"],
      "kind_free_text": "process-level differential checks of the built varlink CLI and certification binaries"},
-    {"name": "fuzz", "path": "harness/fuzz", "serves_properties": ["C06", "C11", "C12"],
+    {"name": "fuzz", "path": "harness/fuzz", "serves_properties": ["C06", "C10", "C11", "C12"],
      "kind_free_text": "cargo-fuzz/libFuzzer targets with the semantic oracle inside the target (thorough tiers)"},
 ]
 
@@ -29,7 +29,7 @@ def check(pid, level, text, note, technique, design_ref, thorough=True):
     CHECKS[pid] = dict(level=level, text=text, note=note, technique=technique, design_ref=design_ref, thorough=thorough)
 
 check("C01", "exploration",
-      "Bounded-exhaustive enumeration of all request sequences up to length 2 (quick) / 3 (thorough) over a 54-symbol alphabet at every pipelining depth through handle(), plus proptest-generated longer sequences (with shrinking) through handle() and through a real unix socket served by listen(); every reply stream is judged by an independent reference model of the test service and a reply-stream checker (order, exactly-once, no silent skip while open). Sampling, not proof: absence is only established inside the enumerated bound.",
+      "Bounded-exhaustive enumeration of all request sequences up to length 2 (quick) / 3 (thorough) over a 72-symbol alphabet (18 kinds x {none, more, oneway, more+oneway}) at every pipelining depth through handle(), plus proptest-generated longer sequences (with shrinking) through handle() and through a real unix socket served by listen(); every reply stream is judged by an independent reference model of the test service and a reply-stream checker (order, exactly-once, no silent skip while open). Sampling, not proof: absence is only established inside the enumerated bound.",
       "Trusted: serde_json, the harness' reference model (written from the property statements), the test service implementation. A closed connection is never itself a violation (the statement permits it). Socket hangs are reported as inconclusive (exit 2), never as violations.",
       "bounded-exhaustive enumeration + proptest sequences vs. reference model (model-based testing)", "DESIGN.md §4 C01")
 
@@ -127,6 +127,30 @@ check("C08", "exploration",
       "For 12 (quick) / 120 (thorough) generated definitions outside the generator's known-finding classes, the harness emits - from its own IDL model - a driver (implementation of the generated server trait, calls of the generated client stubs) and builds it together with the generated modules; client and server then talk over an in-process loop-back whose two directions are recorded. proptest drives 400 (quick) / 3000 cases per definition: type-directed argument / reply / error values x modes {call, more, oneway}. Oracle: wire request (method name, flags, parameters in the IDL's JSON shape under a type-directed comparison), equality of what the implementation received, wire replies / declared errors equal to the scripted JSON, typed equality at the client (reply struct / ErrorKind variant), and InvalidParameter for raw requests with a required member dropped or a leaf retyped.",
       "Trusted: the harness' IDL model and value generator, rustc. A driver that does not compile against a generated module is reported as a violation only when the diagnostics lie in generated/driver modules (the bindings' shape differs from the IDL's); other build failures are inconclusive.",
       "round-trip / differential testing of generated client vs generated server against the IDL model (proptest values)", "DESIGN.md §4 C08")
+
+# parts added after the rounds of independently seeded changes (DESIGN.md 9.7)
+EXTRA = {
+ "C02": "Every third request token carries multi-byte characters, so cuts also fall inside a character.",
+ "C03": "Recorder descriptions vary in shape (no final newline, several, CRLF, trailing blanks) and must come back byte for byte.",
+ "C04": "Client: over a scripted fake peer the complete request is on the wire the moment oneway()/call() returns.",
+ "C05": "Client streams contain error replies that carry continues:true (the stream goes on).",
+ "C06": "Extra mutation family: unknown members with invalid UTF-8; after a fault the peer's writes must be refused (fully closed); listen() cases are journaled so that a process death is attributed to its input. Thorough: 12 parallel libFuzzer processes on c06_handle.",
+ "C07": "Streams with an error reply carrying continues:true, a call after an iterator dropped mid-stream (must never receive a reply of that stream), and every final reply read through a typed call object followed by another call.",
+ "C08": "Two hand-written definitions are part of every run (an error named like a standard error, map of nullable values, object members with nulls).",
+ "C09": "Every other definition starts with a documentation comment; histories of build-script helper runs that share an output directory (rejected / valid / rejected-not-newer).",
+ "C10": "The parser's documentation text is compared character for character; for every other definition the colored rendering is taken before the plain one; definitions with 32..61 interleaved members; member order read off the formatted text when the parser misreads the input. Thorough: libFuzzer target c10_format.",
+ "C11": "Documentation text must run from the first '#' to the last non-blank character; definitions with 32..61 interleaved members.",
+ "C13": "Runs in a journaling child (a process death is attributed to its round); peers: legal request nested 120 deep, idle/silent peers that call after sitting; a connection closed although none of its own requests ends a connection; fresh-server scenarios with 1.3-11 s of silence between two bursts.",
+ "C14": "listen()-level probes (6 rounds x 12 configurations): bound, and a connection left unserved for 5 s that repeats within three further runs is a stranded connection.",
+ "C15": "Saturated-pool scenarios; a connection that connected 150 ms or more before the flag must be served before listen() returns.",
+ "C16": "Additional transports: services started by the harness like a service manager (descriptor 3 + LISTEN_*, default listen configuration) with a blocking and a non-blocking inherited listener; four shell forms of the bridge command.",
+ "C17": "Error names of other interfaces that share a standard error's last element, and near-misses.",
+ "C18": "A second world whose service writes JSON with blanks; close while a 300 ms reply is pending; full client hang-up (stdin and stdout) while a 400 ms reply is pending (exit status 0 in all modes); bytes that arrive only after the client closed its side count as slow.",
+ "C19": "Test steps sent again after End; five respellings of the client's own id; duplicate-step race (one id, one step, six connections at once: exactly one success).",
+ "C20": "Abstract names with slashes and dots; tcp addresses by host name.",
+}
+for _pid, _t in EXTRA.items():
+    CHECKS[_pid]["text"] += " " + _t
 
 ALL = ["C%02d" % i for i in range(1, 21)]
 
